@@ -30,7 +30,17 @@ EXHAUSTIVE_ALL = False
 
 def modes():
     """name -> (function, builder(values list with None, rng) -> kwargs, pointwise?, documents None/masked?)"""
-    T = lambda n, step=60: gen.times(gen.regular(n, step))  # noqa: E731
+    TCAR = ["dt64ns", "epoch-float", "dt64ns", "epoch-int", "epoch-list", "series", "dtindex"]
+    tstate = {"k": 0}
+
+    def T(n, step=60, dups=False):
+        """the time axis in rotating representations (a float64 epoch array is the caller's buffer too); where the test
+        derives no sampling step from the axis (dups=True), every other axis has pairs of samples sharing a stamp"""
+        tstate["k"] += 1
+        secs = gen.regular(n, step)
+        if dups and tstate["k"] % 2 == 0:
+            secs = [secs[k - (k % 2)] for k in range(n)]
+        return gen.times(secs, TCAR[tstate["k"] % len(TCAR)])
 
     def data(x, how):
         if how == "list-none":
@@ -82,7 +92,7 @@ def modes():
     M["location-default"] = ("qartod.location_test", lambda x, r, h: dict(lon=data(x, h), lat=data(x, h)), False, True)
     for k, mem in clim_members.items():
         M[f"climatology-{k}"] = ("qartod.climatology_test", lambda x, r, h, mem=mem: dict(
-            config=mem, inp=data(x, h), tinp=T(len(x)),
+            config=mem, inp=data(x, h), tinp=T(len(x), dups=True),
             zinp=gen.arr([None if r.random() < 0.3 else float(k % 5) for k in range(len(x))])), k == "none", True)
     for meth in ("average", "differential"):
         M[f"spike-{meth}"] = ("qartod.spike_test", lambda x, r, h, meth=meth: dict(
@@ -96,7 +106,7 @@ def modes():
         M[f"attenuated-{kind}-whole"] = ("qartod.attenuated_signal_test", lambda x, r, h, kind=kind: dict(
             inp=data(x, h), tinp=T(len(x)), suspect_threshold=1, fail_threshold=r.choice([0.25, 2]), check_type=kind), False, True)
         M[f"attenuated-{kind}-window"] = ("qartod.attenuated_signal_test", lambda x, r, h, kind=kind: dict(
-            inp=data(x, h), tinp=T(len(x)), suspect_threshold=1, fail_threshold=0.25, check_type=kind,
+            inp=data(x, h), tinp=T(len(x), dups=True), suspect_threshold=1, fail_threshold=0.25, check_type=kind,
             test_period=r.choice([60, 150, 600]), **r.choice([{}, {"min_obs": 2}, {"min_obs": 1}])), False, True)
         M[f"attenuated-{kind}-minperiod"] = ("qartod.attenuated_signal_test", lambda x, r, h, kind=kind: dict(
             inp=data(x, h), tinp=T(max(len(x), 0)), suspect_threshold=1, fail_threshold=0.25, check_type=kind,
@@ -159,6 +169,8 @@ def run(ctx) -> None:
             continue
         pm = rng.choice([0, 0.2, 0.6, 1.0])
         pool = [0.0, 0.5, 1.0, -1.5, 2.0, 3.0, -4.5, 0.25]
+        if rng.random() < 0.25:
+            pool = [rng.choice([0.1, 7.7, 0.3, 1013.25, -2.2, 1e-3])]  # a stuck sensor reporting one (non-dyadic) value
         if ctx.thorough and rng.random() < 0.15:
             pool = pool + [1e150, -1e150, 1e-300, 1e15]
         x = [None if rng.random() < pm else rng.choice(pool) for _ in range(n)]
